@@ -433,7 +433,7 @@ def fixpoint(cf, edges, seeds):
     return entry
 
 
-def rule_paren(ctx, prop, parts=("table", "oracle", "context-lost", "minus")):
+def rule_paren(ctx, prop, parts=("table", "oracle", "context-lost", "minus"), roles=None, all_kinds=False, why=None):
     rep = Report(prop, "R-PAREN", "parenthesis removal agrees with the Lua grammar at every operand role, on the "
                                   "single-line and the hanging layout paths")
     for cfg, prog in ctx.programs.items():
@@ -501,12 +501,14 @@ def rule_paren(ctx, prop, parts=("table", "oracle", "context-lost", "minus")):
                 for (r, c, mp), wit in sorted(entry.get(p, {}).items()):
                     if not mp:
                         continue
+                    if roles is not None and r not in roles:
+                        continue
                     if c not in g:
                         rep.anchor(False, f"context {c} reaching {p}", cfg)
                         continue
                     outs, conts = g[c]
                     bad = []
-                    for kn in unsafe(r, ks):
+                    for kn in (sorted(ks) if all_kinds else unsafe(r, ks)):
                         if "remove" not in outs:
                             continue
                         res = removable(Tinfo, c, ks[kn])
@@ -517,8 +519,8 @@ def rule_paren(ctx, prop, parts=("table", "oracle", "context-lost", "minus")):
                     if bad:
                         rep.violation(f"stylua_lib::{p} role={r} ctx={c} removes={','.join(sorted(bad))}",
                                       f"an operand in role `{r}` reaches {p} with context {c}; in that context the "
-                                      f"parentheses around {sorted(bad)} are removed, which changes the parse at "
-                                      f"that role", gates_loc(prog, p), cfg, {"path": wit})
+                                      f"parentheses around {sorted(bad)} are removed, " + (why or "which changes the parse at "
+                                      f"that role"), gates_loc(prog, p), cfg, {"path": wit})
         if "minus" in parts:
             _double_minus(prog, rep, cfg)
     return rep
